@@ -141,7 +141,18 @@ func (e *Engine) runJob(h *HarnessSpec, shard, nshards int, solverCmd []string, 
 	w := &Worker{eng: e, job: res, shard: shard, nshards: nshards, maxSteps: h.Steps,
 		deadline: time.Now().Add(time.Duration(h.Timeout) * time.Second), maxDepth: 400, fnSeen: map[*ssa.Function]int{}, noMerge: h.NoMerge, mergeConcrete: h.MergeConcrete, trace: trace}
 	w.solver = newSolver(solverCmd, timeoutMs)
-	w.scoped = e.scopedRedirect[h.Pkg]
+	w.scoped = map[string]*ssa.Function{}
+	for _, m := range e.scopedModels[h.Pkg] {
+		on := h.Models == nil
+		for _, g := range h.Models {
+			if g == m.group {
+				on = true
+			}
+		}
+		if on {
+			w.scoped[m.target] = m.fn
+		}
+	}
 	if os.Getenv("VERIF_PROFILE") != "" {
 		w.profile = map[string]int{}
 	}
